@@ -85,3 +85,10 @@ Theorem C20_verification_equation_complete : forall (K : Kernel) (PM : PMul) a r
   ed_is_identity (ed_mul8 K (pt_add K R (pt_neg K (ed_rprime K PM A k s)))) = true.
 Proof. exact ed_equation_complete. Qed.
 Print Assumptions C20_verification_equation_complete.
+
+(* every public key and every commitment R that the Ed25519 verifiers decode is a valid point of the curve, for every byte
+   string (Proofs/RistrettoDecode.v), so the proved group law applies to everything the verification rules compute with *)
+From Strand Require Import Proofs.RistrettoDecode.
+Theorem C20_decoded_points_are_curve_points : forall (K : Kernel) bs P, ed_decompress K bs = Some P -> valid P.
+Proof. exact ed_decompress_valid. Qed.
+Print Assumptions C20_decoded_points_are_curve_points.
